@@ -7,13 +7,13 @@ WHAT={
 "C01":"VP8L pixel kernels of encoder and decoder = spec functions, forward/inverse pairs inverse, predictor dispatch, add/sub-green and cross-colour loops (quantified); inverse-transform chain unpacks a packed palette out of place",
 "C02":"chunk size arithmetic; simple RIFF writers of mux and Encode (ghost byte log); writeRIFF call sites; VP8X flags of writeRIFFExtended; VP8X header of assembleExtended; VP8 frame tag / start code / dimensions / partition table of assembleFrame, emitFrame size guards; ALPH header byte",
 "C03":"decoder pixel kernels and the 14 predictors = spec; add-green and cross-colour inverse loops; palette inverse out of place",
-"C04":"inverse DCT (full, DC, AC3) and inverse WHT = RFC 6386 14.3; loop-filter primitives and clip tables = RFC 6386 15; filter strength table = 9.6/15.2; dequantisation tables and per-segment factors = 14.1/9.6; bool decoder step (GetBit, GetBitAlt tables) = 7.3; ALPH header dispatch, raw plane, horizontal unfilter row",
+"C04":"inverse DCT (full, DC, AC3) and inverse WHT = RFC 6386 14.3; loop-filter primitives (dsp and the decoder's own copies), edge-loop and macroblock dispatch, clip tables = RFC 6386 15; decoder's inlined DC transform; filter strength table = 9.6/15.2; dequantisation tables and per-segment factors = 14.1/9.6; bool decoder step (GetBit, GetBitAlt tables) = 7.3; ALPH header dispatch, raw plane, horizontal unfilter row",
 "C05":"no panic + termination: internal/container, mux (demux and writer helpers), lossless bit reader with its invariant, VP8L and ALPH header decoders, animation decoder helpers, dsp kernels under contract",
 "C06":"encoder iTransformOne = decoder transformOne = spec (all inputs), inverse WHT; encoder quantiser factors = decoder dequantiser factors = RFC; segment map off => all macroblocks in segment 0; frame header announces the partition sizes",
 "C07":"raw ALPH payload is the plane filtered as the header says; DecodeAlpha obeys the header; per-iteration rule of the three forward filters; horizontal unfilter row; palette inverse out of place (lossless alpha)",
 "C08":"key frame resets the previous-frame rectangle; blend admissibility lemma; similar pixels have equal alpha; (known finding)",
 "C09":"blend = spec for all inputs; key-frame predicate sound; Reset; clearCanvas; compositeFrame source/destination/blend call sites; NextFrame/applyDispose/fillRect: which frame is disposed, where, with what",
-"C11":"pooled lossy decoder reset field by field with coverage; filter table fully rewritten",
+"C11":"pooled lossy decoder, lossless decoder, lossless encoder and lossy encoder reset field by field with coverage obligations; filter table fully rewritten",
 "C13":"portable kernels = architecture-independent spec; module type-checks for GOARCH=386 and arm; amd64 up-sampling wrapper: scratch rows disjoint, index-safe",
 "C14":"sizes = bytes written; chunk writer byte layout; ANMF header fields written = fields parsed back (offsets/2, dims-1, duration, dispose/blend bits), ALPH/image sub-chunk; VP8X header and flags; simple layout only without ALPH chunk; ALPH-prefix convention",
 "C15":"Encode passes the caller's options unchanged to the lossless encoder on both paths; writeRIFF passes blobs unchanged; VP8X flags announce exactly the blobs present; chunk writer copies bytes",
